@@ -24,6 +24,7 @@ import (
 	"net"
 	"net/url"
 	"runtime"
+	"runtime/debug"
 	"sort"
 	"strings"
 	"sync"
@@ -288,26 +289,45 @@ func c48Requests() []*c48Req {
 // c48InCIDR: ip lies in the CIDR block, i.e. same address family and the first
 // prefix-length bits agree.
 func c48InCIDR(ip, cidr string) bool {
-	sl := strings.LastIndexByte(cidr, '/')
-	base, bitsS := cidr[:sl], cidr[sl+1:]
-	var bits uint
-	fmt.Sscanf(bitsS, "%d", &bits)
-	is4 := func(s string) bool { return !strings.Contains(s, ":") }
-	if is4(ip) != is4(base) {
+	a, b := c48ParseIP(ip), c48ParseCIDR(cidr)
+	if a.v4 != b.v4 {
 		return false
 	}
-	raw := func(s string) ([]byte, uint) {
-		p := net.ParseIP(s)
-		if is4(s) {
-			return p.To4(), 32
-		}
-		return p.To16(), 128
+	return new(big.Int).Rsh(a.val, b.total-b.bits).Cmp(new(big.Int).Rsh(b.val, b.total-b.bits)) == 0
+}
+
+type c48IPVal struct {
+	v4          bool
+	val         *big.Int
+	bits, total uint
+}
+
+var c48IPCache sync.Map // text -> c48IPVal (pure function of the text; cached for speed only)
+
+func c48ParseIP(s string) c48IPVal {
+	if v, ok := c48IPCache.Load(s); ok {
+		return v.(c48IPVal)
 	}
-	a, total := raw(ip)
-	b, _ := raw(base)
-	x := new(big.Int).Rsh(new(big.Int).SetBytes(a), total-bits)
-	y := new(big.Int).Rsh(new(big.Int).SetBytes(b), total-bits)
-	return x.Cmp(y) == 0
+	var out c48IPVal
+	p := net.ParseIP(s)
+	if !strings.Contains(s, ":") {
+		out = c48IPVal{v4: true, val: new(big.Int).SetBytes(p.To4()), total: 32}
+	} else {
+		out = c48IPVal{v4: false, val: new(big.Int).SetBytes(p.To16()), total: 128}
+	}
+	c48IPCache.Store(s, out)
+	return out
+}
+
+func c48ParseCIDR(s string) c48IPVal {
+	if v, ok := c48IPCache.Load(s); ok {
+		return v.(c48IPVal)
+	}
+	sl := strings.LastIndexByte(s, '/')
+	out := c48ParseIP(s[:sl])
+	fmt.Sscanf(s[sl+1:], "%d", &out.bits)
+	c48IPCache.Store(s, out)
+	return out
 }
 
 func c48Str(kind, pat, s string) bool {
@@ -579,9 +599,16 @@ func c48PrincLeaves() []*c48Node {
 	return l
 }
 
-// c48ListCount / c48ListAt: all ordered lists of length 0..2 over set.
-func c48ListCount(n int) int { return 1 + n + n*n }
-func c48ListAt(set []*c48Node, i int) []*c48Node {
+// c48ListCount / c48ListAt: all lists of length 0..2 over set; pairs are
+// ordered (x,y) when ord, else unordered with repetition (x<=y by index).
+func c48ListCount(n int, ord bool) int {
+	if ord {
+		return 1 + n + n*n
+	}
+	return 1 + n + n*(n+1)/2
+}
+
+func c48ListAt(set []*c48Node, i int, ord bool) []*c48Node {
 	n := len(set)
 	switch {
 	case i == 0:
@@ -590,13 +617,19 @@ func c48ListAt(set []*c48Node, i int) []*c48Node {
 		return []*c48Node{set[i-1]}
 	}
 	i -= 1 + n
-	return []*c48Node{set[i/n], set[i%n]}
+	if ord {
+		return []*c48Node{set[i/n], set[i%n]}
+	}
+	// row a holds pairs (a,a)..(a,n-1); rows before a hold a*n - a(a-1)/2 pairs
+	off := func(a int) int { return a*n - a*(a-1)/2 }
+	a := sort.Search(n, func(a int) bool { return off(a+1) > i })
+	return []*c48Node{set[a], set[a+i-off(a)]}
 }
 
 // c48NextCount / c48NextAt: all trees one level deeper than `lower`:
 // a leaf, not(x), and(list), or(list) with x / list elements from lower.
-func c48NextCount(nl, nlow int) int { return nl + nlow + 2*c48ListCount(nlow) }
-func c48NextAt(leaves, lower []*c48Node, i int) *c48Node {
+func c48NextCount(nl, nlow int, ord bool) int { return nl + nlow + 2*c48ListCount(nlow, ord) }
+func c48NextAt(leaves, lower []*c48Node, i int, ord bool) *c48Node {
 	if i < len(leaves) {
 		return leaves[i]
 	}
@@ -605,18 +638,19 @@ func c48NextAt(leaves, lower []*c48Node, i int) *c48Node {
 		return &c48Node{K: "not", C: []*c48Node{lower[i]}}
 	}
 	i -= len(lower)
-	lc := c48ListCount(len(lower))
+	lc := c48ListCount(len(lower), ord)
 	if i < lc {
-		return &c48Node{K: "and", C: c48ListAt(lower, i)}
+		return &c48Node{K: "and", C: c48ListAt(lower, i, ord)}
 	}
-	return &c48Node{K: "or", C: c48ListAt(lower, i-lc)}
+	return &c48Node{K: "or", C: c48ListAt(lower, i-lc, ord)}
 }
 
+// c48Level2: every depth<=2 tree (ordered child lists).
 func c48Level2(leaves []*c48Node) []*c48Node {
-	n := c48NextCount(len(leaves), len(leaves))
+	n := c48NextCount(len(leaves), len(leaves), true)
 	out := make([]*c48Node, n)
 	for i := range out {
-		out[i] = c48NextAt(leaves, leaves, i)
+		out[i] = c48NextAt(leaves, leaves, i, true)
 	}
 	return out
 }
@@ -732,6 +766,9 @@ func (x *c48Runner) par(n int, f func(i int, st *c48Stats)) *c48Stats {
 				if lo >= n {
 					break
 				}
+				if !x.r.Mine(lo / chunk) {
+					continue
+				}
 				hi := lo + chunk
 				if hi > n {
 					hi = n
@@ -774,6 +811,7 @@ func TestVerif_C48_RBAC(t *testing.T) {
 	const P = c48P
 	r := vk.Start(t, "c48a_rbac", "exploration", P)
 	defer r.Finish()
+	defer debug.SetGCPercent(debug.SetGCPercent(400)) // allocation-heavy code under test, tiny live heap
 	x := &c48Runner{r: r, reqs: c48Requests()}
 
 	if r.ReplayFile() != "" {
@@ -792,14 +830,16 @@ func TestVerif_C48_RBAC(t *testing.T) {
 	permLeaves, princLeaves := c48PermLeaves(), c48PrincLeaves()
 	permL2, princL2 := c48Level2(permLeaves), c48Level2(princLeaves)
 	anyL := []*c48Node{{K: "any"}}
-	depth := r.Pick(2, 3)
+	th := r.Thorough()
+	menu := c48ChainMenu()[:r.Pick(6, 8)]
 
-	r.Rule(P, fmt.Sprintf("three exhaustive layers, each chain evaluated on all %d requests (2 methods x 2 header maps x 3 peer x 3 local addresses x 6 TLS states): "+
-		"(T) every permission tree and every principal tree of depth <= %d over the leaf menu (%d permission / %d principal leaves; and/or with every ordered child list of length 0..2, not) as the only expression of a one-policy ALLOW engine and of a one-policy DENY engine; "+
-		"(P) every policy made of an ordered list of 0..2 permissions and 0..2 principals over the leaves (thorough: additionally lists over all depth-2 trees on one side against a 4-list menu on the other); "+
-		"(C) every chain of 0..2 engines x {ALLOW,DENY} x every ordered list of 0..2 policies from an 8-policy menu. "+
-		"non-trivial = a chain whose reference decision is not constant over the request set (each enumerated chain is structurally distinct)",
-		len(x.reqs), depth, len(permLeaves), len(princLeaves)))
+	r.Rule(P, fmt.Sprintf("exhaustive layers, every chain evaluated on all %d requests (2 methods x 2 header maps x 3 peer x 3 local addresses x 6 TLS states). "+
+		"(T2) every permission tree and every principal tree of depth <= 2 over the leaf menu (%d permission / %d principal leaves; not(x), and/or over every ORDERED child list of length 0..2) as the sole expression of a one-policy ALLOW engine and of a one-policy DENY engine. "+
+		"(T3, thorough only) the same for every tree of depth <= 3 whose children are depth<=2 trees, top-level and/or child pairs taken unordered, ALLOW engine. "+
+		"(P) every one-policy ALLOW engine whose policy has a list of 0..2 permissions and a list of 0..2 principals over the leaves (pairs unordered in quick, ordered in thorough); thorough adds lists of 0..2 (unordered pairs) over ALL depth<=2 trees on one side against a 2-list menu on the other. "+
+		"(C) every chain of 0..2 engines x {ALLOW,DENY} x every ordered list of 0..2 policies from a %d-policy menu. "+
+		"non-trivial = a chain whose reference decision is not constant over the request set (every enumerated chain is structurally distinct)",
+		len(x.reqs), len(permLeaves), len(princLeaves), len(menu)))
 
 	layer := func(name string, n int, f func(i int, st *c48Stats)) {
 		st := x.par(n, f)
@@ -822,41 +862,42 @@ func TestVerif_C48_RBAC(t *testing.T) {
 		}
 	}
 
-	// ---- (T) tree layer --------------------------------------------------
-	permLow, princLow := permLeaves, princLeaves // children level for the deepest trees
-	if depth == 3 {
-		permLow, princLow = permL2, princL2
+	// ---- (T) tree layers -------------------------------------------------
+	layer("T2_perm", 2*len(permL2), func(i int, st *c48Stats) {
+		x.check("T2_perm", c48One(i%2 == 1, []*c48Node{permL2[i/2]}, anyL), st, "")
+	})
+	layer("T2_princ", 2*len(princL2), func(i int, st *c48Stats) {
+		x.check("T2_princ", c48One(i%2 == 1, anyL, []*c48Node{princL2[i/2]}), st, "")
+	})
+	if th {
+		nPerm := c48NextCount(len(permLeaves), len(permL2), false)
+		nPrinc := c48NextCount(len(princLeaves), len(princL2), false)
+		layer("T3_perm", nPerm, func(i int, st *c48Stats) {
+			x.check("T3_perm", c48One(false, []*c48Node{c48NextAt(permLeaves, permL2, i, false)}, anyL), st, "")
+		})
+		layer("T3_princ", nPrinc, func(i int, st *c48Stats) {
+			x.check("T3_princ", c48One(false, anyL, []*c48Node{c48NextAt(princLeaves, princL2, i, false)}), st, "")
+		})
 	}
-	nPerm := c48NextCount(len(permLeaves), len(permLow))
-	nPrinc := c48NextCount(len(princLeaves), len(princLow))
-	r.Set(P, "perm_trees", nPerm)
-	r.Set(P, "princ_trees", nPrinc)
-	layer("T_perm", 2*nPerm, func(i int, st *c48Stats) {
-		x.check("T_perm", c48One(i%2 == 1, []*c48Node{c48NextAt(permLeaves, permLow, i/2)}, anyL), st, "")
-	})
-	layer("T_princ", 2*nPrinc, func(i int, st *c48Stats) {
-		x.check("T_princ", c48One(i%2 == 1, anyL, []*c48Node{c48NextAt(princLeaves, princLow, i/2)}), st, "")
-	})
 
-	// ---- (P) policy layer ------------------------------------------------
-	npl, nql := c48ListCount(len(permLeaves)), c48ListCount(len(princLeaves))
+	// ---- (P) policy layers -----------------------------------------------
+	npl, nql := c48ListCount(len(permLeaves), th), c48ListCount(len(princLeaves), th)
 	layer("P_leaves", npl*nql, func(i int, st *c48Stats) {
-		x.check("P_leaves", c48One(false, c48ListAt(permLeaves, i/nql), c48ListAt(princLeaves, i%nql)), st, "")
+		x.check("P_leaves", c48One(false, c48ListAt(permLeaves, i/nql, th), c48ListAt(princLeaves, i%nql, th)), st, "")
 	})
-	if r.Thorough() {
-		princMenu := [][]*c48Node{anyL, nil, {{K: "authn", M: "absent"}}, {{K: "rip", V: "10.0.0.0/8"}, {K: "authn", M: "exact", V: "spiffe://a/b"}}}
-		permMenu := [][]*c48Node{anyL, nil, {{K: "dport", P: 80}}, {{K: "path", M: "exact", V: "/s/m"}, {K: "dip", V: "::/0"}}}
-		np2, nq2 := c48ListCount(len(permL2)), c48ListCount(len(princL2))
+	if th {
+		princMenu := [][]*c48Node{anyL, {{K: "rip", V: "10.0.0.0/8"}, {K: "authn", M: "exact", V: "spiffe://a/b"}}}
+		permMenu := [][]*c48Node{anyL, {{K: "path", M: "exact", V: "/s/m"}, {K: "dip", V: "::/0"}}}
+		np2, nq2 := c48ListCount(len(permL2), false), c48ListCount(len(princL2), false)
 		layer("P_perm2", np2*len(princMenu), func(i int, st *c48Stats) {
-			x.check("P_perm2", c48One(false, c48ListAt(permL2, i/len(princMenu)), princMenu[i%len(princMenu)]), st, "")
+			x.check("P_perm2", c48One(false, c48ListAt(permL2, i/len(princMenu), false), princMenu[i%len(princMenu)]), st, "")
 		})
 		layer("P_princ2", nq2*len(permMenu), func(i int, st *c48Stats) {
-			x.check("P_princ2", c48One(false, permMenu[i%len(permMenu)], c48ListAt(princL2, i/len(permMenu))), st, "")
+			x.check("P_princ2", c48One(false, permMenu[i%len(permMenu)], c48ListAt(princL2, i/len(permMenu), false)), st, "")
 		})
 	}
 
 	// ---- (C) chain layer -------------------------------------------------
-	menu := c48ChainMenu()
 	nm := len(menu)
 	nPolLists := 1 + nm + nm*nm
 	polList := func(i int) []c48Policy {
@@ -886,17 +927,22 @@ func TestVerif_C48_RBAC(t *testing.T) {
 	})
 
 	// ---- written-out cases ----------------------------------------------
-	for _, s := range []struct {
-		ch c48Chain
-		q  int
-	}{
-		{c48One(false, []*c48Node{c48NextAt(permLeaves, permLow, nPerm-1)}, anyL), 0},
-		{c48One(true, anyL, []*c48Node{{K: "authn", M: "exact", V: "d.example"}}), 4},
-		{c48Chain{engAt(5), engAt(2 * (1 + nm + 3*nm + 6))}, 40},
-	} {
-		q := x.reqs[s.q%len(x.reqs)]
-		want, class := c48Allowed(s.ch, q)
-		r.Sample(P, map[string]any{"chain": s.ch.String(), "request": q.Name, "reference_allows": want, "class": class})
+	if sh, _ := r.Shard(); sh == 0 {
+		for _, s := range []struct {
+			ch c48Chain
+			q  int
+		}{
+			{c48One(false, []*c48Node{permL2[len(permL2)-1]}, anyL), 0},
+			{c48One(true, anyL, []*c48Node{{K: "authn", M: "exact", V: "d.example"}}), 4},
+			{c48Chain{engAt(5), engAt(2 * (1 + nm + 3*nm + 5))}, 40},
+		} {
+			q := x.reqs[s.q%len(x.reqs)]
+			want, class := c48Allowed(s.ch, q)
+			r.Sample(P, map[string]any{"chain": s.ch.String(), "request": q.Name, "reference_allows": want, "class": class})
+		}
+		r.Set(P, "requests", len(x.reqs))
+		r.Set(P, "perm_trees_depth2", len(permL2))
+		r.Set(P, "princ_trees_depth2", len(princL2))
 	}
 	r.Assume(P, "header rules use the semantics of the sibling property C47 (comma-joined values, invert only when present, present_match compares presence); CIDR membership is per address family; a TLS peer without certificate has the empty principal name (gRFC A41)")
 	r.Assume(P, "the context is assembled by the harness from the same four calls grpc.Server makes (SetConnection, peer.NewContext, NewIncomingContext, NewContextWithServerTransportStream), not by a running server; certificates are hand-built x509.Certificate values")
